@@ -200,6 +200,7 @@ func (in *Interp) reset(prefix []int) {
 	in.unknownBranch = 0
 	in.guardsOff = false
 	in.quotedOf = map[string]Term{}
+	in.rtypes = nil
 	in.lockCount = map[*Value]int{}
 }
 
@@ -287,7 +288,7 @@ func (in *Interp) runPath(entry *ssa.Function, prefix []int, R *HarnessResult) {
 				if !in.spec.PanicOK {
 					func() {
 						defer func() { recover() }()
-						in.reportViolation("no-panic", mkBool(true), "uncaught panic: "+x.msg+" @ "+in.where())
+						in.reportViolation("no-panic", mkBool(true), "uncaught panic: "+x.msg+" @ "+x.where)
 					}()
 				}
 			default:
